@@ -2,20 +2,537 @@ import JPV.Props.Common
 namespace JPV.Proofs
 open JPV
 
+/-! ### `Stream` projections -/
+
+theorem Stream.cons_fst (n : Node) (s : Impl.Stream) : (Impl.Stream.cons n s).1 = n :: s.1 := rfl
+theorem Stream.cons_snd (n : Node) (s : Impl.Stream) : (Impl.Stream.cons n s).2 = s.2 := rfl
+theorem Stream.nil_fst : Impl.Stream.nil.1 = [] := rfl
+theorem Stream.nil_snd : Impl.Stream.nil.2 = none := rfl
+
+theorem Stream.append_of_none {a : Impl.Stream} (b : Impl.Stream) (h : a.2 = none) :
+    Impl.Stream.append a b = (a.1 ++ b.1, b.2) := by
+  unfold Impl.Stream.append; rw [h]
+
+theorem Stream.append_of_some {a : Impl.Stream} (b : Impl.Stream) {e : Impl.ErrKind}
+    (h : a.2 = some e) : Impl.Stream.append a b = (a.1, some e) := by
+  unfold Impl.Stream.append; rw [h]
+
+theorem Stream.append_snd_none (a b : Impl.Stream) :
+    (Impl.Stream.append a b).2 = none ↔ a.2 = none ∧ b.2 = none := by
+  cases h : a.2 with
+  | none => rw [Stream.append_of_none b h]; simp
+  | some e => rw [Stream.append_of_some b h]; simp
+
+theorem Stream.append_snd_cases (a b : Impl.Stream) :
+    (Impl.Stream.append a b).2 = a.2 ∨ (Impl.Stream.append a b).2 = b.2 := by
+  cases h : a.2 with
+  | none => rw [Stream.append_of_none b h]; exact Or.inr rfl
+  | some e => rw [Stream.append_of_some b h]; exact Or.inl rfl
+
+theorem Stream.append_fst_prefix (a b : Impl.Stream) :
+    (Impl.Stream.append a b).1 = a.1 ∨
+      (a.2 = none ∧ (Impl.Stream.append a b).1 = a.1 ++ b.1) := by
+  cases h : a.2 with
+  | none => rw [Stream.append_of_none b h]; exact Or.inr ⟨rfl, rfl⟩
+  | some e => rw [Stream.append_of_some b h]; exact Or.inl rfl
+
+theorem Stream.append_fst_length_le (a b : Impl.Stream) :
+    (Impl.Stream.append a b).1.length ≤ a.1.length + b.1.length := by
+  cases h : a.2 with
+  | none => rw [Stream.append_of_none b h]; simp
+  | some e => rw [Stream.append_of_some b h]; simp
+
+/-! ### equation lemmas for `visit` -/
+
+theorem visit_gt {max : Int} {d : Nat} (loc : Loc) (v : Json) (h : (d : Int) > max) :
+    Impl.visit max d loc v = ([], some .recursion) := by
+  unfold Impl.visit; rw [if_pos h]
+
+theorem visit_arr {max : Int} {d : Nat} (loc : Loc) (xs : List Json) (h : (d : Int) ≤ max) :
+    Impl.visit max d loc (.arr xs) =
+      Impl.Stream.cons ⟨loc, .arr xs⟩ (Impl.visitArr max (d + 1) loc 0 xs) := by
+  unfold Impl.visit; rw [if_neg (by omega)]
+
+theorem visit_obj {max : Int} {d : Nat} (loc : Loc) (kvs : List (Str × Json)) (h : (d : Int) ≤ max) :
+    Impl.visit max d loc (.obj kvs) =
+      Impl.Stream.cons ⟨loc, .obj kvs⟩ (Impl.visitObj max (d + 1) loc kvs) := by
+  unfold Impl.visit; rw [if_neg (by omega)]
+
+theorem visit_scalar {max : Int} {d : Nat} (loc : Loc) {v : Json} (hv : v.isContainer = false)
+    (h : (d : Int) ≤ max) : Impl.visit max d loc v = ([⟨loc, v⟩], none) := by
+  unfold Impl.visit; rw [if_neg (by omega)]
+  cases v <;> first | rfl | exact absurd hv (by simp [Json.isContainer])
+
+theorem visitArr_nil (max : Int) (d : Nat) (loc : Loc) (i : Nat) :
+    Impl.visitArr max d loc i [] = Impl.Stream.nil := by
+  unfold Impl.visitArr; rfl
+
+theorem visitArr_cons_container (max : Int) (d : Nat) (loc : Loc) (i : Nat) {x : Json}
+    (xs : List Json) (hx : x.isContainer = true) :
+    Impl.visitArr max d loc i (x :: xs) =
+      Impl.Stream.append (Impl.visit max d (loc ++ [.idx (i : Int)]) x)
+        (Impl.visitArr max d loc (i + 1) xs) := by
+  rw [Impl.visitArr, if_pos hx]
+
+theorem visitArr_cons_scalar (max : Int) (d : Nat) (loc : Loc) (i : Nat) {x : Json}
+    (xs : List Json) (hx : x.isContainer = false) :
+    Impl.visitArr max d loc i (x :: xs) = Impl.visitArr max d loc (i + 1) xs := by
+  rw [Impl.visitArr, if_neg (by simp [hx])]
+
+theorem visitObj_nil (max : Int) (d : Nat) (loc : Loc) :
+    Impl.visitObj max d loc [] = Impl.Stream.nil := by
+  unfold Impl.visitObj; rfl
+
+theorem visitObj_cons_container (max : Int) (d : Nat) (loc : Loc) (k : Str) {x : Json}
+    (rest : List (Str × Json)) (hx : x.isContainer = true) :
+    Impl.visitObj max d loc ((k, x) :: rest) =
+      Impl.Stream.append (Impl.visit max d (loc ++ [.name k]) x)
+        (Impl.visitObj max d loc rest) := by
+  rw [Impl.visitObj, if_pos hx]
+
+theorem visitObj_cons_scalar (max : Int) (d : Nat) (loc : Loc) (k : Str) {x : Json}
+    (rest : List (Str × Json)) (hx : x.isContainer = false) :
+    Impl.visitObj max d loc ((k, x) :: rest) = Impl.visitObj max d loc rest := by
+  rw [Impl.visitObj, if_neg (by simp [hx])]
+
+/-! ### depth / size facts -/
+
+theorem depth_of_scalar {v : Json} (h : v.isContainer = false) : v.depth = 0 := by
+  cases v <;> first | (unfold Json.depth; rfl) | exact absurd h (by simp [Json.isContainer])
+
+theorem depth_pos_of_container {v : Json} (h : v.isContainer = true) : 1 ≤ v.depth := by
+  cases v <;> first | (unfold Json.depth; omega) | exact absurd h (by simp [Json.isContainer])
+
+theorem depth_arr (xs : List Json) : (Json.arr xs).depth = 1 + Json.depthArr xs := by
+  rw [Json.depth]
+theorem depth_obj (kvs : List (Str × Json)) : (Json.obj kvs).depth = 1 + Json.depthObj kvs := by
+  rw [Json.depth]
+theorem depthArr_nil : Json.depthArr [] = 0 := by rw [Json.depthArr]
+theorem depthArr_cons (x : Json) (xs : List Json) :
+    Json.depthArr (x :: xs) = max x.depth (Json.depthArr xs) := by rw [Json.depthArr]
+theorem depthObj_nil : Json.depthObj [] = 0 := by rw [Json.depthObj]
+theorem depthObj_cons (k : Str) (x : Json) (rest : List (Str × Json)) :
+    Json.depthObj ((k, x) :: rest) = max x.depth (Json.depthObj rest) := by
+  rw [Json.depthObj]
+
+theorem size_arr (xs : List Json) : (Json.arr xs).size = 1 + Json.sizeArr xs := by rw [Json.size]
+theorem size_obj (kvs : List (Str × Json)) : (Json.obj kvs).size = 1 + Json.sizeObj kvs := by
+  rw [Json.size]
+theorem sizeArr_nil : Json.sizeArr [] = 0 := by rw [Json.sizeArr]
+theorem sizeArr_cons (x : Json) (xs : List Json) :
+    Json.sizeArr (x :: xs) = x.size + Json.sizeArr xs := by rw [Json.sizeArr]
+theorem sizeObj_nil : Json.sizeObj [] = 0 := by rw [Json.sizeObj]
+theorem sizeObj_cons (k : Str) (x : Json) (rest : List (Str × Json)) :
+    Json.sizeObj ((k, x) :: rest) = x.size + Json.sizeObj rest := by rw [Json.sizeObj]
+theorem size_pos (v : Json) : 1 ≤ v.size := by
+  cases v <;> (unfold Json.size; omega)
+
+/-! ### the error is always `recursion` -/
+
+mutual
+theorem visit_err (max : Int) (d : Nat) (loc : Loc) (v : Json) :
+    (Impl.visit max d loc v).2 = none ∨ (Impl.visit max d loc v).2 = some .recursion := by
+  by_cases hd : (d : Int) > max
+  · rw [visit_gt loc v hd]; exact Or.inr rfl
+  · have hd' : (d : Int) ≤ max := by omega
+    match v with
+    | .arr xs => rw [visit_arr loc xs hd', Stream.cons_snd]; exact visitArr_err max (d + 1) loc 0 xs
+    | .obj kvs => rw [visit_obj loc kvs hd', Stream.cons_snd]; exact visitObj_err max (d + 1) loc kvs
+    | .null => rw [visit_scalar loc rfl hd']; exact Or.inl rfl
+    | .bool _ => rw [visit_scalar loc rfl hd']; exact Or.inl rfl
+    | .num _ => rw [visit_scalar loc rfl hd']; exact Or.inl rfl
+    | .str _ => rw [visit_scalar loc rfl hd']; exact Or.inl rfl
+theorem visitArr_err (max : Int) (d : Nat) (loc : Loc) (i : Nat) (xs : List Json) :
+    (Impl.visitArr max d loc i xs).2 = none ∨ (Impl.visitArr max d loc i xs).2 = some .recursion := by
+  match xs with
+  | [] => rw [visitArr_nil]; exact Or.inl rfl
+  | x :: xs =>
+    cases hx : x.isContainer with
+    | false => rw [visitArr_cons_scalar _ _ _ _ _ hx]; exact visitArr_err max d loc (i + 1) xs
+    | true =>
+      rw [visitArr_cons_container _ _ _ _ _ hx]
+      rcases Stream.append_snd_cases (Impl.visit max d (loc ++ [.idx (i : Int)]) x)
+        (Impl.visitArr max d loc (i + 1) xs) with h | h
+      · rw [h]; exact visit_err max d _ x
+      · rw [h]; exact visitArr_err max d loc (i + 1) xs
+theorem visitObj_err (max : Int) (d : Nat) (loc : Loc) (kvs : List (Str × Json)) :
+    (Impl.visitObj max d loc kvs).2 = none ∨ (Impl.visitObj max d loc kvs).2 = some .recursion := by
+  match kvs with
+  | [] => rw [visitObj_nil]; exact Or.inl rfl
+  | (k, x) :: rest =>
+    cases hx : x.isContainer with
+    | false => rw [visitObj_cons_scalar _ _ _ _ _ hx]; exact visitObj_err max d loc rest
+    | true =>
+      rw [visitObj_cons_container _ _ _ _ _ hx]
+      rcases Stream.append_snd_cases (Impl.visit max d (loc ++ [.name k]) x)
+        (Impl.visitObj max d loc rest) with h | h
+      · rw [h]; exact visit_err max d _ x
+      · rw [h]; exact visitObj_err max d loc rest
+end
+
+/-! ### exact boundary, arbitrary starting depth -/
+
+mutual
+theorem visit_ok_iff (max : Int) (d : Nat) (loc : Loc) (v : Json) :
+    (Impl.visit max d loc v).2 = none ↔ ((d : Int) ≤ max ∧ (d : Int) + (v.depth : Int) ≤ max + 1) := by
+  by_cases hd : (d : Int) > max
+  · rw [visit_gt loc v hd]
+    constructor
+    · intro h; cases h
+    · intro h; omega
+  · have hd' : (d : Int) ≤ max := by omega
+    match v with
+    | .arr xs =>
+      rw [visit_arr loc xs hd', Stream.cons_snd, visitArr_ok_iff max (d + 1) loc 0 xs, depth_arr]
+      omega
+    | .obj kvs =>
+      rw [visit_obj loc kvs hd', Stream.cons_snd, visitObj_ok_iff max (d + 1) loc kvs, depth_obj]
+      omega
+    | .null => rw [visit_scalar loc rfl hd', depth_of_scalar rfl]; simp; omega
+    | .bool _ => rw [visit_scalar loc rfl hd', depth_of_scalar rfl]; simp; omega
+    | .num _ => rw [visit_scalar loc rfl hd', depth_of_scalar rfl]; simp; omega
+    | .str _ => rw [visit_scalar loc rfl hd', depth_of_scalar rfl]; simp; omega
+theorem visitArr_ok_iff (max : Int) (d : Nat) (loc : Loc) (i : Nat) (xs : List Json) :
+    (Impl.visitArr max d loc i xs).2 = none ↔
+      (Json.depthArr xs = 0 ∨ (d : Int) + (Json.depthArr xs : Int) ≤ max + 1) := by
+  match xs with
+  | [] => rw [visitArr_nil, depthArr_nil]; simp [Stream.nil_snd]
+  | x :: xs =>
+    cases hx : x.isContainer with
+    | false =>
+      rw [visitArr_cons_scalar _ _ _ _ _ hx, visitArr_ok_iff max d loc (i + 1) xs, depthArr_cons,
+        depth_of_scalar hx]
+      simp
+    | true =>
+      have := depth_pos_of_container hx
+      rw [visitArr_cons_container _ _ _ _ _ hx, Stream.append_snd_none,
+        visit_ok_iff max d _ x, visitArr_ok_iff max d loc (i + 1) xs, depthArr_cons]
+      omega
+theorem visitObj_ok_iff (max : Int) (d : Nat) (loc : Loc) (kvs : List (Str × Json)) :
+    (Impl.visitObj max d loc kvs).2 = none ↔
+      (Json.depthObj kvs = 0 ∨ (d : Int) + (Json.depthObj kvs : Int) ≤ max + 1) := by
+  match kvs with
+  | [] => rw [visitObj_nil, depthObj_nil]; simp [Stream.nil_snd]
+  | (k, x) :: rest =>
+    cases hx : x.isContainer with
+    | false =>
+      rw [visitObj_cons_scalar _ _ _ _ _ hx, visitObj_ok_iff max d loc rest, depthObj_cons,
+        depth_of_scalar hx]
+      simp
+    | true =>
+      have := depth_pos_of_container hx
+      rw [visitObj_cons_container _ _ _ _ _ hx, Stream.append_snd_none,
+        visit_ok_iff max d _ x, visitObj_ok_iff max d loc rest, depthObj_cons]
+      omega
+end
+
+/-! ### equation lemmas for `descendants` -/
+
+theorem descendants_arr (loc : Loc) (xs : List Json) :
+    Spec.descendants loc (.arr xs) = ⟨loc, .arr xs⟩ :: Spec.descArr loc 0 xs := by
+  rw [Spec.descendants]
+theorem descendants_obj (loc : Loc) (kvs : List (Str × Json)) :
+    Spec.descendants loc (.obj kvs) = ⟨loc, .obj kvs⟩ :: Spec.descObj loc kvs := by
+  rw [Spec.descendants]
+theorem descendants_scalar (loc : Loc) {v : Json} (hv : v.isContainer = false) :
+    Spec.descendants loc v = [⟨loc, v⟩] := by
+  cases v <;> first | (unfold Spec.descendants; rfl) | exact absurd hv (by simp [Json.isContainer])
+theorem descArr_nil (loc : Loc) (i : Nat) : Spec.descArr loc i [] = [] := by rw [Spec.descArr]
+theorem descArr_cons (loc : Loc) (i : Nat) (x : Json) (xs : List Json) :
+    Spec.descArr loc i (x :: xs) =
+      Spec.descendants (loc ++ [.idx (i : Int)]) x ++ Spec.descArr loc (i + 1) xs := by
+  rw [Spec.descArr]
+theorem descObj_nil (loc : Loc) : Spec.descObj loc [] = [] := by rw [Spec.descObj]
+theorem descObj_cons (loc : Loc) (k : Str) (x : Json) (rest : List (Str × Json)) :
+    Spec.descObj loc ((k, x) :: rest) =
+      Spec.descendants (loc ++ [.name k]) x ++ Spec.descObj loc rest := by
+  rw [Spec.descObj]
+
+/-- the predicate selecting container nodes -/
+abbrev isC : Node → Bool := fun n => n.val.isContainer
+
+/-! ### locations of descendants extend the location of the root -/
+
+mutual
+theorem mem_descendants_loc (loc : Loc) (v : Json) (n : Node) (h : n ∈ Spec.descendants loc v) :
+    loc.length ≤ n.loc.length := by
+  match v with
+  | .arr xs =>
+    rw [descendants_arr, List.mem_cons] at h
+    rcases h with h | h
+    · subst h; exact Nat.le_refl _
+    · exact Nat.le_of_lt (mem_descArr_loc loc 0 xs n h)
+  | .obj kvs =>
+    rw [descendants_obj, List.mem_cons] at h
+    rcases h with h | h
+    · subst h; exact Nat.le_refl _
+    · exact Nat.le_of_lt (mem_descObj_loc loc kvs n h)
+  | .null => rw [descendants_scalar loc rfl, List.mem_singleton] at h; subst h; exact Nat.le_refl _
+  | .bool _ => rw [descendants_scalar loc rfl, List.mem_singleton] at h; subst h; exact Nat.le_refl _
+  | .num _ => rw [descendants_scalar loc rfl, List.mem_singleton] at h; subst h; exact Nat.le_refl _
+  | .str _ => rw [descendants_scalar loc rfl, List.mem_singleton] at h; subst h; exact Nat.le_refl _
+theorem mem_descArr_loc (loc : Loc) (i : Nat) (xs : List Json) (n : Node)
+    (h : n ∈ Spec.descArr loc i xs) : loc.length < n.loc.length := by
+  match xs with
+  | [] => rw [descArr_nil] at h; cases h
+  | x :: xs =>
+    rw [descArr_cons, List.mem_append] at h
+    rcases h with h | h
+    · have := mem_descendants_loc (loc ++ [.idx (i : Int)]) x n h
+      rw [List.length_append, List.length_singleton] at this
+      omega
+    · exact mem_descArr_loc loc (i + 1) xs n h
+theorem mem_descObj_loc (loc : Loc) (kvs : List (Str × Json)) (n : Node)
+    (h : n ∈ Spec.descObj loc kvs) : loc.length < n.loc.length := by
+  match kvs with
+  | [] => rw [descObj_nil] at h; cases h
+  | (k, x) :: rest =>
+    rw [descObj_cons, List.mem_append] at h
+    rcases h with h | h
+    · have := mem_descendants_loc (loc ++ [.name k]) x n h
+      rw [List.length_append, List.length_singleton] at this
+      omega
+    · exact mem_descObj_loc loc rest n h
+end
+
+theorem loc_beq_false_of_length_lt {loc : Loc} {n : Node} (h : loc.length < n.loc.length) :
+    (n.loc == loc) = false := by
+  rw [beq_eq_false_iff_ne]
+  intro e; rw [e] at h; omega
+
+/-- on the descendants of a container, "container or the root location" selects the containers -/
+theorem filter_root_eq_of_container (loc : Loc) {v : Json} (hv : v.isContainer = true) :
+    (Spec.descendants loc v).filter (fun n => n.val.isContainer || n.loc == loc) =
+      (Spec.descendants loc v).filter isC := by
+  apply List.filter_congr
+  intro n hn
+  match v, hv, hn with
+  | .arr xs, _, hn =>
+    rw [descendants_arr, List.mem_cons] at hn
+    rcases hn with hn | hn
+    · subst hn; rfl
+    · rw [loc_beq_false_of_length_lt (mem_descArr_loc loc 0 xs n hn), Bool.or_false]
+  | .obj kvs, _, hn =>
+    rw [descendants_obj, List.mem_cons] at hn
+    rcases hn with hn | hn
+    · subst hn; rfl
+    · rw [loc_beq_false_of_length_lt (mem_descObj_loc loc kvs n hn), Bool.or_false]
+
+theorem filter_root_eq_of_scalar (loc : Loc) {v : Json} (hv : v.isContainer = false) :
+    (Spec.descendants loc v).filter (fun n => n.val.isContainer || n.loc == loc) = [⟨loc, v⟩] := by
+  rw [descendants_scalar loc hv]
+  simp
+
+theorem filter_isC_scalar (loc : Loc) {v : Json} (hv : v.isContainer = false) :
+    (Spec.descendants loc v).filter isC = [] := by
+  rw [descendants_scalar loc hv]
+  simp [hv]
+
+/-! ### without an error, the traversal is complete (arbitrary starting depth) -/
+
+mutual
+theorem visit_fst_of_ok (max : Int) (d : Nat) (loc : Loc) (v : Json) (hv : v.isContainer = true)
+    (h : (Impl.visit max d loc v).2 = none) :
+    (Impl.visit max d loc v).1 = (Spec.descendants loc v).filter isC := by
+  have hd' : (d : Int) ≤ max := ((visit_ok_iff max d loc v).1 h).1
+  match v, hv, h with
+  | .arr xs, _, h =>
+    rw [visit_arr loc xs hd', Stream.cons_snd] at h
+    rw [visit_arr loc xs hd', Stream.cons_fst, descendants_arr, List.filter_cons_of_pos (by rfl),
+      visitArr_fst_of_ok max (d + 1) loc 0 xs h]
+  | .obj kvs, _, h =>
+    rw [visit_obj loc kvs hd', Stream.cons_snd] at h
+    rw [visit_obj loc kvs hd', Stream.cons_fst, descendants_obj, List.filter_cons_of_pos (by rfl),
+      visitObj_fst_of_ok max (d + 1) loc kvs h]
+theorem visitArr_fst_of_ok (max : Int) (d : Nat) (loc : Loc) (i : Nat) (xs : List Json)
+    (h : (Impl.visitArr max d loc i xs).2 = none) :
+    (Impl.visitArr max d loc i xs).1 = (Spec.descArr loc i xs).filter isC := by
+  match xs with
+  | [] => rw [visitArr_nil, descArr_nil]; rfl
+  | x :: xs =>
+    cases hx : x.isContainer with
+    | false =>
+      rw [visitArr_cons_scalar _ _ _ _ _ hx] at h
+      rw [visitArr_cons_scalar _ _ _ _ _ hx, descArr_cons, List.filter_append,
+        filter_isC_scalar _ hx, List.nil_append]
+      exact visitArr_fst_of_ok max d loc (i + 1) xs h
+    | true =>
+      rw [visitArr_cons_container _ _ _ _ _ hx, Stream.append_snd_none] at h
+      rw [visitArr_cons_container _ _ _ _ _ hx, Stream.append_of_none _ h.1, descArr_cons,
+        List.filter_append, visit_fst_of_ok max d _ x hx h.1,
+        visitArr_fst_of_ok max d loc (i + 1) xs h.2]
+theorem visitObj_fst_of_ok (max : Int) (d : Nat) (loc : Loc) (kvs : List (Str × Json))
+    (h : (Impl.visitObj max d loc kvs).2 = none) :
+    (Impl.visitObj max d loc kvs).1 = (Spec.descObj loc kvs).filter isC := by
+  match kvs with
+  | [] => rw [visitObj_nil, descObj_nil]; rfl
+  | (k, x) :: rest =>
+    cases hx : x.isContainer with
+    | false =>
+      rw [visitObj_cons_scalar _ _ _ _ _ hx] at h
+      rw [visitObj_cons_scalar _ _ _ _ _ hx, descObj_cons, List.filter_append,
+        filter_isC_scalar _ hx, List.nil_append]
+      exact visitObj_fst_of_ok max d loc rest h
+    | true =>
+      rw [visitObj_cons_container _ _ _ _ _ hx, Stream.append_snd_none] at h
+      rw [visitObj_cons_container _ _ _ _ _ hx, Stream.append_of_none _ h.1, descObj_cons,
+        List.filter_append, visit_fst_of_ok max d _ x hx h.1,
+        visitObj_fst_of_ok max d loc rest h.2]
+end
+
+/-! ### in every case the nodes yielded are a prefix of the full traversal -/
+
+mutual
+theorem visit_fst_prefix (max : Int) (d : Nat) (loc : Loc) (v : Json) (hv : v.isContainer = true) :
+    (Impl.visit max d loc v).1 <+: (Spec.descendants loc v).filter isC := by
+  by_cases hd : (d : Int) > max
+  · rw [visit_gt loc v hd]; exact List.nil_prefix
+  · have hd' : (d : Int) ≤ max := by omega
+    match v, hv with
+    | .arr xs, _ =>
+      rw [visit_arr loc xs hd', Stream.cons_fst, descendants_arr, List.filter_cons_of_pos (by rfl),
+        List.cons_prefix_cons]
+      exact ⟨rfl, visitArr_fst_prefix max (d + 1) loc 0 xs⟩
+    | .obj kvs, _ =>
+      rw [visit_obj loc kvs hd', Stream.cons_fst, descendants_obj, List.filter_cons_of_pos (by rfl),
+        List.cons_prefix_cons]
+      exact ⟨rfl, visitObj_fst_prefix max (d + 1) loc kvs⟩
+theorem visitArr_fst_prefix (max : Int) (d : Nat) (loc : Loc) (i : Nat) (xs : List Json) :
+    (Impl.visitArr max d loc i xs).1 <+: (Spec.descArr loc i xs).filter isC := by
+  match xs with
+  | [] => rw [visitArr_nil]; exact List.nil_prefix
+  | x :: xs =>
+    cases hx : x.isContainer with
+    | false =>
+      rw [visitArr_cons_scalar _ _ _ _ _ hx, descArr_cons, List.filter_append,
+        filter_isC_scalar _ hx, List.nil_append]
+      exact visitArr_fst_prefix max d loc (i + 1) xs
+    | true =>
+      rw [visitArr_cons_container _ _ _ _ _ hx, descArr_cons, List.filter_append]
+      rcases Stream.append_fst_prefix (Impl.visit max d (loc ++ [.idx (i : Int)]) x)
+        (Impl.visitArr max d loc (i + 1) xs) with h | ⟨h0, h⟩
+      · rw [h]
+        exact (visit_fst_prefix max d _ x hx).trans (List.prefix_append _ _)
+      · rw [h, visit_fst_of_ok max d _ x hx h0, List.prefix_append_right_inj]
+        exact visitArr_fst_prefix max d loc (i + 1) xs
+theorem visitObj_fst_prefix (max : Int) (d : Nat) (loc : Loc) (kvs : List (Str × Json)) :
+    (Impl.visitObj max d loc kvs).1 <+: (Spec.descObj loc kvs).filter isC := by
+  match kvs with
+  | [] => rw [visitObj_nil]; exact List.nil_prefix
+  | (k, x) :: rest =>
+    cases hx : x.isContainer with
+    | false =>
+      rw [visitObj_cons_scalar _ _ _ _ _ hx, descObj_cons, List.filter_append,
+        filter_isC_scalar _ hx, List.nil_append]
+      exact visitObj_fst_prefix max d loc rest
+    | true =>
+      rw [visitObj_cons_container _ _ _ _ _ hx, descObj_cons, List.filter_append]
+      rcases Stream.append_fst_prefix (Impl.visit max d (loc ++ [.name k]) x)
+        (Impl.visitObj max d loc rest) with h | ⟨h0, h⟩
+      · rw [h]
+        exact (visit_fst_prefix max d _ x hx).trans (List.prefix_append _ _)
+      · rw [h, visit_fst_of_ok max d _ x hx h0, List.prefix_append_right_inj]
+        exact visitObj_fst_prefix max d loc rest
+end
+
+/-! ### the number of nodes yielded is bounded by the size of the value -/
+
+mutual
+theorem visit_length_le (max : Int) (d : Nat) (loc : Loc) (v : Json) :
+    (Impl.visit max d loc v).1.length ≤ v.size := by
+  by_cases hd : (d : Int) > max
+  · rw [visit_gt loc v hd]; exact Nat.zero_le _
+  · have hd' : (d : Int) ≤ max := by omega
+    match v with
+    | .arr xs =>
+      have := visitArr_length_le max (d + 1) loc 0 xs
+      rw [visit_arr loc xs hd', Stream.cons_fst, List.length_cons, size_arr]; omega
+    | .obj kvs =>
+      have := visitObj_length_le max (d + 1) loc kvs
+      rw [visit_obj loc kvs hd', Stream.cons_fst, List.length_cons, size_obj]; omega
+    | .null => rw [visit_scalar loc rfl hd']; exact size_pos _
+    | .bool _ => rw [visit_scalar loc rfl hd']; exact size_pos _
+    | .num _ => rw [visit_scalar loc rfl hd']; exact size_pos _
+    | .str _ => rw [visit_scalar loc rfl hd']; exact size_pos _
+theorem visitArr_length_le (max : Int) (d : Nat) (loc : Loc) (i : Nat) (xs : List Json) :
+    (Impl.visitArr max d loc i xs).1.length ≤ Json.sizeArr xs := by
+  match xs with
+  | [] => rw [visitArr_nil]; exact Nat.zero_le _
+  | x :: xs =>
+    have ih := visitArr_length_le max d loc (i + 1) xs
+    rw [sizeArr_cons]
+    cases hx : x.isContainer with
+    | false => rw [visitArr_cons_scalar _ _ _ _ _ hx]; omega
+    | true =>
+      have h1 := visit_length_le max d (loc ++ [.idx (i : Int)]) x
+      have h2 := Stream.append_fst_length_le (Impl.visit max d (loc ++ [.idx (i : Int)]) x)
+        (Impl.visitArr max d loc (i + 1) xs)
+      rw [visitArr_cons_container _ _ _ _ _ hx]; omega
+theorem visitObj_length_le (max : Int) (d : Nat) (loc : Loc) (kvs : List (Str × Json)) :
+    (Impl.visitObj max d loc kvs).1.length ≤ Json.sizeObj kvs := by
+  match kvs with
+  | [] => rw [visitObj_nil]; exact Nat.zero_le _
+  | (k, x) :: rest =>
+    have ih := visitObj_length_le max d loc rest
+    rw [sizeObj_cons]
+    cases hx : x.isContainer with
+    | false => rw [visitObj_cons_scalar _ _ _ _ _ hx]; omega
+    | true =>
+      have h1 := visit_length_le max d (loc ++ [.name k]) x
+      have h2 := Stream.append_fst_length_le (Impl.visit max d (loc ++ [.name k]) x)
+        (Impl.visitObj max d loc rest)
+      rw [visitObj_cons_container _ _ _ _ _ hx]; omega
+end
+
+/-! ### general statements in the form of the C18 properties (arbitrary starting depth) -/
+
+theorem visit_complete_gen (max : Int) (d : Nat) (loc : Loc) (v : Json)
+    (h : (Impl.visit max d loc v).2 = none) :
+    Impl.visit max d loc v =
+      ((Spec.descendants loc v).filter (fun n => n.val.isContainer || n.loc == loc), none) := by
+  cases hv : v.isContainer with
+  | true =>
+    rw [filter_root_eq_of_container loc hv, ← visit_fst_of_ok max d loc v hv h, ← h]
+  | false =>
+    rw [filter_root_eq_of_scalar loc hv, visit_scalar loc hv ((visit_ok_iff max d loc v).1 h).1]
+
+theorem visit_prefix_gen (max : Int) (d : Nat) (loc : Loc) (v : Json) :
+    (Impl.visit max d loc v).1 <+:
+      (Spec.descendants loc v).filter (fun n => n.val.isContainer || n.loc == loc) := by
+  cases hv : v.isContainer with
+  | true => rw [filter_root_eq_of_container loc hv]; exact visit_fst_prefix max d loc v hv
+  | false =>
+    rw [filter_root_eq_of_scalar loc hv]
+    by_cases hd : (d : Int) > max
+    · rw [visit_gt loc v hd]; exact List.nil_prefix
+    · rw [visit_scalar loc hv (by omega)]; exact List.prefix_refl _
+
+/-! ### the C18 statements -/
+
 theorem visit_boundary : ∀ (max : Int) (loc : Loc) (v : Json),
     ((Impl.visit max 1 loc v).2 = none ↔ (1 ≤ max ∧ (v.depth : Int) ≤ max)) ∧
-    ((Impl.visit max 1 loc v).2 = none ∨ (Impl.visit max 1 loc v).2 = some .recursion) := by sorry
+    ((Impl.visit max 1 loc v).2 = none ∨ (Impl.visit max 1 loc v).2 = some .recursion) := by
+  intro max loc v
+  refine ⟨?_, visit_err max 1 loc v⟩
+  rw [visit_ok_iff max 1 loc v]
+  omega
 
 theorem visit_complete (max : Int) (loc : Loc) (v : Json) (h : (v.depth : Int) ≤ max) (h1 : 1 ≤ max) :
     Impl.visit max 1 loc v =
-      ((Spec.descendants loc v).filter (fun n => n.val.isContainer || n.loc == loc), none) := by sorry
+      ((Spec.descendants loc v).filter (fun n => n.val.isContainer || n.loc == loc), none) :=
+  visit_complete_gen max 1 loc v ((visit_ok_iff max 1 loc v).2 (by omega))
 
 theorem visit_raise (max : Int) (loc : Loc) (v : Json) (h : (v.depth : Int) > max) :
     (Impl.visit max 1 loc v).2 = some .recursion ∧
     (Impl.visit max 1 loc v).1 <+:
-      (Spec.descendants loc v).filter (fun n => n.val.isContainer || n.loc == loc) := by sorry
+      (Spec.descendants loc v).filter (fun n => n.val.isContainer || n.loc == loc) := by
+  refine ⟨?_, visit_prefix_gen max 1 loc v⟩
+  rcases visit_err max 1 loc v with h0 | h0
+  · have := (visit_ok_iff max 1 loc v).1 h0
+    omega
+  · exact h0
 
 theorem visit_length (max : Int) (loc : Loc) (v : Json) :
-    (Impl.visit max 1 loc v).1.length ≤ v.size := by sorry
+    (Impl.visit max 1 loc v).1.length ≤ v.size := visit_length_le max 1 loc v
 
 end JPV.Proofs
